@@ -131,6 +131,70 @@ func c12Nest(s string) any {
 	return atoi(s)
 }
 
+// c12NestShared builds the same nesting as c12Nest with all typed []int leaves being views of ONE backing array
+// laid out second leaf, first leaf, third leaf, …: the spare capacity behind a leaf is another leaf (Flatten only
+// reads its input, so the memory layout must not matter).
+func c12NestShared(s string) any {
+	var leaves [][]int
+	var collect func(s string)
+	collect = func(s string) {
+		if !strings.HasPrefix(s, "[") {
+			return
+		}
+		items := parseList(s)
+		if len(items) > 0 && items[0] == "s" {
+			l := []int{}
+			for _, it := range items[1:] {
+				l = append(l, atoi(it))
+			}
+			leaves = append(leaves, l)
+			return
+		}
+		for _, it := range items {
+			collect(it)
+		}
+	}
+	collect(s)
+	order := make([]int, len(leaves))
+	for i := range order {
+		order[i] = i
+	}
+	if len(order) >= 2 {
+		order[0], order[1] = 1, 0
+	}
+	var flat []int
+	off := make([]int, len(leaves))
+	for _, li := range order {
+		off[li] = len(flat)
+		flat = append(flat, leaves[li]...)
+	}
+	flat = append(flat, 0, 0, 0, 0)
+	next := 0
+	var build func(s string) any
+	build = func(s string) any {
+		switch {
+		case s == "b":
+			return "bad"
+		case s == "n":
+			return nil
+		case strings.HasPrefix(s, "["):
+			items := parseList(s)
+			if len(items) > 0 && items[0] == "s" {
+				li := next
+				next++
+				return flat[off[li] : off[li]+len(leaves[li])]
+			}
+			out := make([]any, 0, len(items))
+			for _, it := range items {
+				out = append(out, build(it))
+			}
+			return out
+		}
+		return atoi(s)
+	}
+	return build(s)
+}
+
 type c12Runner struct{}
 
 func (r *c12Runner) Do(op []string) string {
@@ -171,8 +235,12 @@ func (r *c12Runner) Do(op []string) string {
 		z := gogu.Unzip(m...)
 		back := gogu.Zip(c12CopyMatrix(z)...)
 		return c12ShowMatrix(z) + " " + c12ShowMatrix(back)
-	case "flatten":
-		res, err := gogu.Flatten[int](c12Nest(op[1]))
+	case "flatten", "flattenshared":
+		in := c12Nest(op[1])
+		if op[0] == "flattenshared" {
+			in = c12NestShared(op[1])
+		}
+		res, err := gogu.Flatten[int](in)
 		if err != nil {
 			return "err"
 		}
@@ -346,6 +414,15 @@ func c12RandNest(r *SplitMix, depth int) string {
 var c12Runes = []rune{'a', 'z', 0, 0x7f, 0x80, 0xe9, 0x7ff, 0x800, 0x20ac, 0xd7ff, 0xe000, 0xfffd, 0xffff, 0x10000, 0x1f600, 0x10ffff}
 
 func genC12(g *Gen) {
+	// Flatten on typed leaves that share one backing array (memory layout must not matter)
+	if g.Mine() {
+		var ops []string
+		for _, t := range []string{"[[s,4,5,6],[s,1,2,3],[s,7,8,9]]", "[[s,1,2],9,[s,3,4,5,6]]", "[[s,1],[[s,2,3],[s,4]],5,[s,6,7,8]]",
+			"[[s],[s,1,1],[s,2]]", "[[s,3,3],[[s,3]],[s,0,1]]", "[[s,1,2,3,4,5],[s,6],[s,7],[s,8,9]]", "[7,[s,1,2],[8,[s,3,4]],[s,5,6]]"} {
+			ops = append(ops, "flattenshared "+t, "flatten "+t)
+		}
+		g.Emit("c12", nil, ops)
+	}
 	// long inputs (lengths incl. thresholds a change introduced into the source)
 	for li, n := range longLens(g.Thorough()) {
 		if !g.Mine() {
